@@ -74,9 +74,14 @@ def run(tier, seed, replay=None):
     ck.oblige("K6: format_source_range == Partial.format_range (class, returned range, bytes) on %d cases" % len(res), not dis,
               ("first: %r" % (dis[0]["case"][:4] + (dis[0]["case"][4][:200],),))[:600] if dis else "")
     # hypothesis of C13_range_total: the schema clause on every well-formed tree (erroneous sources are refused before it matters)
-    sw = [d for d in res if d.get("model_swfc") is not None]
+    # (sources with syntax errors are left out: the parser's error recovery builds nodes outside the schema that hold
+    # no Error child themselves, e.g. a Binary without left operand; the theorem claims nothing there and K6 still
+    # compares the two sides on them; their number is reported)
+    sw = [d for d in res if d.get("model_swfc") is not None and d.get("in_err") == "0"]
     notsw = [d for d in sw if not d["model_swfc"]]
-    ck.oblige("hypothesis of C13_range_total: the extracted schema clause `swfc` holds on the node to format in all %d range cases" % len(sw), not notsw,
+    ck.extra["nodes_outside_schema_in_erroneous_sources"] = sum(
+        1 for d in res if d.get("model_swfc") is False and d.get("in_err") != "0")
+    ck.oblige("hypothesis of C13_range_total: the extracted schema clause `swfc` holds on the node to format in all %d range cases on sources without syntax errors" % len(sw), not notsw,
               ("first: %r" % (notsw[0]["case"][:4] + (notsw[0]["case"][4][:200],),))[:600] if notsw else "")
     viol = [d for d in res if d.get("c13") == "0" and not shrink.in_known_class(d, "c01")]
     known = [d for d in res if d.get("c13") == "0" and shrink.in_known_class(d, "c01")]
